@@ -77,6 +77,10 @@ CONSTANTS
     Design,     \* "direct" | "temp" | "any" (any: chosen in Init)
     Policy,     \* "trust" | "validate" | "any"
     RenameAt,   \* "closed" (contract) | "written" (rename before close: wrong order)
+    BypassOne,  \* TRUE: implementation-shaped wrong instance -- a key set of size one takes a fast path that
+                \*       neither looks the entry up nor stores it (must be refuted; key sets of size 1 are regular members)
+    MkdirAtBuild, \* TRUE: implementation-shaped wrong instance -- the cache directory is created only when the Cache
+                \*       object is built: after the caller deleted it (ClearCache) a run on the SAME object cannot store
     Recover,    \* TRUE: implementation-shaped wrong instance -- when a run starts after a crash, leftover temporary
                 \*       files are promoted (renamed) to their final names, whatever they hold (must be refuted)
     Forwards,   \* TRUE: the entry point hands the caller's cache on to the map (contract).  FALSE: implementation-shaped
@@ -96,6 +100,8 @@ Keys    == 1..NKeys
 \* the stored entry (file name) of a key; keys 1 and 2 are siblings: distinct keys whose texts differ only in
 \* punctuation / sign.  Contract: identity (injective).
 Nm(k)   == IF LossyNames /\ k = 2 THEN 1 ELSE k
+\* does this run use the cache at all?
+Fwd == Forwards /\ ~(BypassOne /\ NKeys = 1)
 \* the result of key k under version f of the mapped function (distinct per key and version)
 Val(f, k) == 10 * f + k
 Workers == 1..W
@@ -113,6 +119,7 @@ VARIABLES
     fv,         \* [Keys -> 0 | version]     which version's result the whole final file holds
     memo,       \* [Keys -> 0 | value]       process-wide memo of loaded values (only used when Memo); 99 = mutated
     clears, extra,
+    dirok,      \* the cache directory exists (every run start re-creates it -- unless MkdirAtBuild)
     missing,    \* keys whose entry was not (whole) on disk when the current run started
     ops,        \* what the caller did so far: "run", "rerun", "mutate", "clear", "crash"
     computed,   \* keys computed in the current run
@@ -123,8 +130,8 @@ VARIABLES
     fresh       \* TRUE exactly in the state right after a Crash
 
 vars == <<design, policy, fin, tmp, pc, taken, res, computed, status, verify, crashes, snaps, fresh,
-          fn, fv, memo, clears, extra, ops, missing>>
-mem == <<fn, fv, memo, clears, extra, ops, missing>>
+          fn, fv, memo, clears, extra, ops, missing, dirok>>
+mem == <<fn, fv, memo, clears, extra, ops, missing, dirok>>
 files == <<fin, tmp>>
 conf == <<design, policy>>
 
@@ -139,7 +146,7 @@ Init ==
     /\ res = [k \in Keys |-> 0]
     /\ computed = {}
     /\ fn = 1 /\ fv = [k \in Keys |-> 0] /\ memo = [k \in Keys |-> 0]
-    /\ clears = 0 /\ extra = 0 /\ ops = <<"run">> /\ missing = Keys
+    /\ clears = 0 /\ extra = 0 /\ ops = <<"run">> /\ missing = Keys /\ dirok = TRUE
     /\ status = "running"
     /\ verify = FALSE
     /\ crashes = 0
@@ -161,7 +168,7 @@ Take(w, k) ==
 \* file.exists()
 Lookup(w) ==
     /\ At(w, "taken")
-    /\ Goto(w, IF Forwards /\ fin[Nm(pc[w].k)] # Absent THEN "hit" ELSE "miss")
+    /\ Goto(w, IF Fwd /\ fin[Nm(pc[w].k)] # Absent THEN "hit" ELSE "miss")
     /\ fresh' = FALSE
     /\ UNCHANGED <<conf, mem, files, taken, res, computed, status, verify, crashes, snaps>>
 
@@ -174,7 +181,7 @@ LoadOk(w) ==
           /\ memo' = IF Memo THEN [memo EXCEPT ![Nm(k)] = val] ELSE memo
     /\ pc' = [pc EXCEPT ![w] = IdlePc]
     /\ fresh' = FALSE
-    /\ UNCHANGED <<conf, missing, fn, fv, clears, extra, ops, files, taken, computed, status, verify, crashes, snaps>>
+    /\ UNCHANGED <<conf, dirok, missing, fn, fv, clears, extra, ops, files, taken, computed, status, verify, crashes, snaps>>
 
 \* loading a file that is not whole fails; what that means is the policy
 LoadBad(w) ==
@@ -196,14 +203,21 @@ Compute(w) ==
 \* open(..., "wb") creates or truncates
 \* an entry point that dropped the cache returns the computed value without storing it
 ReturnUnstored(w) ==
-    /\ ~Forwards /\ At(w, "computed")
+    /\ ~Fwd /\ At(w, "computed")
     /\ res' = [res EXCEPT ![pc[w].k] = pc[w].v]
     /\ pc' = [pc EXCEPT ![w] = IdlePc]
     /\ fresh' = FALSE
     /\ UNCHANGED <<conf, mem, files, taken, computed, status, verify, crashes, snaps>>
 
+\* the directory is gone and nobody re-creates it: the save raises
+OpenFails(w) ==
+    /\ Fwd /\ ~dirok /\ At(w, "computed")
+    /\ status' = "raised"
+    /\ fresh' = FALSE
+    /\ UNCHANGED <<conf, mem, files, pc, taken, res, computed, verify, crashes, snaps>>
+
 Open(w) ==
-    /\ Forwards
+    /\ Fwd /\ dirok
     /\ At(w, "computed")
     /\ pc' = [pc EXCEPT ![w].at = "writing", ![w].b = 0]
     /\ IF design = "direct"
@@ -234,7 +248,7 @@ Flush(w) ==
     /\ SetContent(w, Content(w) + 1)
     /\ fv' = IF IntoFinal(w) THEN [fv EXCEPT ![Nm(pc[w].k)] = pc[w].v] ELSE fv   \* whose result the final path is getting
     /\ fresh' = FALSE
-    /\ UNCHANGED <<conf, missing, fn, memo, clears, extra, ops, pc, taken, res, computed, status, verify, crashes, snaps>>
+    /\ UNCHANGED <<conf, dirok, missing, fn, memo, clears, extra, ops, pc, taken, res, computed, status, verify, crashes, snaps>>
 
 \* close() flushes whatever is still buffered
 Close(w) ==
@@ -245,7 +259,7 @@ Close(w) ==
     /\ fv' = IF IntoFinal(w) THEN [fv EXCEPT ![Nm(pc[w].k)] = pc[w].v] ELSE fv
     /\ Goto(w, IF IntoFinal(w) THEN "saved" ELSE "closed")
     /\ fresh' = FALSE
-    /\ UNCHANGED <<conf, missing, fn, memo, clears, extra, ops, taken, res, computed, status, verify, crashes, snaps>>
+    /\ UNCHANGED <<conf, dirok, missing, fn, memo, clears, extra, ops, taken, res, computed, status, verify, crashes, snaps>>
 
 \* wrong order: the temporary file is moved onto the final path while it is still open
 RenameEarly(w) ==
@@ -256,7 +270,7 @@ RenameEarly(w) ==
     /\ pc' = [pc EXCEPT ![w].mv = TRUE]
     /\ fv' = [fv EXCEPT ![Nm(pc[w].k)] = pc[w].v]
     /\ fresh' = FALSE
-    /\ UNCHANGED <<conf, missing, fn, memo, clears, extra, ops, taken, res, computed, status, verify, crashes, snaps>>
+    /\ UNCHANGED <<conf, dirok, missing, fn, memo, clears, extra, ops, taken, res, computed, status, verify, crashes, snaps>>
 
 \* atomic replace of the final path by the temporary file
 Rename(w) ==
@@ -267,7 +281,7 @@ Rename(w) ==
     /\ fv' = [fv EXCEPT ![Nm(pc[w].k)] = pc[w].v]
     /\ Goto(w, "saved")
     /\ fresh' = FALSE
-    /\ UNCHANGED <<conf, missing, fn, memo, clears, extra, ops, taken, res, computed, status, verify, crashes, snaps>>
+    /\ UNCHANGED <<conf, dirok, missing, fn, memo, clears, extra, ops, taken, res, computed, status, verify, crashes, snaps>>
 
 Return(w) ==
     /\ At(w, "saved")
@@ -299,7 +313,7 @@ NextRun ==
     /\ ops' = Append(ops, "rerun")
     /\ missing' = {k \in Keys : fin[Nm(k)] # L}
     /\ fresh' = FALSE
-    /\ UNCHANGED <<conf, fn, fv, memo, clears, files, crashes, snaps>>
+    /\ UNCHANGED <<conf, dirok, fn, fv, memo, clears, files, crashes, snaps>>
 
 \* the caller deletes SOME entries (half-filled cache) and runs again: exactly those have to be computed
 DropEntries(S) ==
@@ -312,7 +326,7 @@ DropEntries(S) ==
     /\ missing' = S
     /\ ops' = ops \o <<"drop" \o ToString(S), "rerun*">>
     /\ fresh' = FALSE
-    /\ UNCHANGED <<conf, fn, memo, clears, extra, tmp, crashes, snaps>>
+    /\ UNCHANGED <<conf, dirok, fn, memo, clears, extra, tmp, crashes, snaps>>
 
 \* the caller (same process) mutates the objects a completed run returned
 Mutate ==
@@ -320,7 +334,7 @@ Mutate ==
     /\ memo' = IF Memo THEN [k \in Keys |-> IF memo[k] # 0 THEN 99 ELSE 0] ELSE memo
     /\ ops' = Append(ops, "mutate")
     /\ fresh' = FALSE
-    /\ UNCHANGED <<conf, missing, fn, fv, clears, extra, files, pc, taken, res, computed, status, verify, crashes, snaps>>
+    /\ UNCHANGED <<conf, dirok, missing, fn, fv, clears, extra, files, pc, taken, res, computed, status, verify, crashes, snaps>>
 
 \* the caller deletes the cache directory because the mapped function changed, and runs again (same process)
 ClearCache ==
@@ -333,6 +347,7 @@ ClearCache ==
     /\ verify' = FALSE
     /\ ops' = ops \o <<"clear", "run">>
     /\ missing' = Keys
+    /\ dirok' = ~MkdirAtBuild          \* contract: the run that follows creates the directory again
     /\ fresh' = FALSE
     /\ UNCHANGED <<conf, memo, crashes, snaps>>
 
@@ -361,11 +376,11 @@ Crash ==
           ELSE UNCHANGED <<files, fv>>
     /\ missing' = {k \in Keys : fin'[Nm(k)] # L}
     /\ fresh' = TRUE
-    /\ UNCHANGED <<conf, fn, clears, extra, verify>>
+    /\ UNCHANGED <<conf, dirok, fn, clears, extra, verify>>
 
 Stutter == status \in {"end", "raised"} /\ UNCHANGED vars
 
-Tau(w) == Lookup(w) \/ ReturnUnstored(w) \/ Open(w) \/ Write(w) \/ Flush(w) \/ Close(w) \/ Rename(w) \/ RenameEarly(w) \/ Return(w)
+Tau(w) == Lookup(w) \/ ReturnUnstored(w) \/ OpenFails(w) \/ Open(w) \/ Write(w) \/ Flush(w) \/ Close(w) \/ Rename(w) \/ RenameEarly(w) \/ Return(w)
 
 Progress ==
     \/ \E w \in Workers : \/ \E k \in Keys : Take(w, k)
